@@ -451,7 +451,7 @@ impl MerkleTree {
                     (
                         Some(DataHash {
                             index: block.index,
-                            nodes: p.nodes.expect("nodes need to be present"),
+                            nodes: p.nodes.ok_or_else(invalid_request)?,
                         }),
                         None,
                     )
@@ -460,7 +460,7 @@ impl MerkleTree {
                         None,
                         Some(DataHash {
                             index: hash.index,
-                            nodes: p.nodes.expect("nodes need to be set"),
+                            nodes: p.nodes.ok_or_else(invalid_request)?,
                         }),
                     )
                 } else {
@@ -1016,6 +1016,11 @@ impl MerkleTree {
         nodes: &IntMap<Option<Node>>,
     ) -> Result<Either<Vec<StoreInfoInstruction>, ()>, HypercoreError> {
         if let Some(indexed) = indexed {
+            // The walk below climbs from the requested index until it reaches `root`: that
+            // only terminates if `root` is the index itself or one of its ancestors.
+            if !flat_tree::Iterator::new(root).contains(indexed.index) {
+                return Err(invalid_request());
+            }
             let mut iter = flat_tree::Iterator::new(indexed.index);
             let mut instructions: Vec<StoreInfoInstruction> = Vec::new();
             let mut p_nodes: Vec<Node> = Vec::new();
@@ -1322,6 +1327,13 @@ impl MerkleTree {
             }
             None => Ok(IntMap::new()),
         }
+    }
+}
+
+/// Error for a request whose block/hash index, seek and upgrade do not fit together
+fn invalid_request() -> HypercoreError {
+    HypercoreError::InvalidOperation {
+        context: "Invalid request: requested index is not covered by the proof".to_string(),
     }
 }
 
